@@ -125,6 +125,19 @@ def run(ck: Check):
                 for a_, b2 in ((lo, hi), (hi, lo)):
                     ops = [a_] * k + [b2] * (w + 4 - k)
                     do_case(det, cfg, ops, kind="warmup-shock")
+    # 2c. two-sided HDDM: burst / long quiet stretch / burst again, so that one side reaches the drift bound
+    #     while the other side sits in the warning band (the exclusivity clause of the merged verdict)
+    ck.rule("two-sided HDDM-A/W: hi^a lo^b hi^c and its mirror for a in 1..6, b in {20,50,97,150}, c = 40, default and lenient levels: flags never both set")
+    for nm in ("HDDMA", "HDDMW"):
+        det = BY_NAME[nm]
+        for base in (dict(alpha_d=0.001, alpha_w=0.005, min_num_instances=30), dict(alpha_d=0.01, alpha_w=0.3, min_num_instances=10), dict(alpha_d=0.05, alpha_w=0.9, min_num_instances=5)):
+            cfg = dict(base, two_sided_test=True)
+            if nm == "HDDMW":
+                cfg["lambda_"] = 0.05
+            for a_ in range(1, 7):
+                for b2 in (20, 50, 97, 150):
+                    for hi in (0, 1):
+                        do_case(det, cfg, [hi] * a_ + [1 - hi] * b2 + [hi] * 40, kind="three-phase")
     # 3. exhaustive 0/1 streams for the error-based detectors
     L = 10 if not thorough else 13
     ck.rule(f"exhaustive: all 2^{L} 0/1 streams of length {L} (hence all shorter prefixes) for the 7 detectors on error streams, 2 small-warm-up configurations each (HDDM in both modes); model flags computed by an enumeration inside Coq")
